@@ -161,13 +161,18 @@ def to_jsonable(obj):
 class Part:
     """One generator of a property check.
 
-    kind='given': `strategy()` returns a Hypothesis strategy of case dicts; `n` examples in total.
-    kind='enum' : `cases()` returns a sequence of case dicts (finite, enumerated completely).
+    kind='given'  : `strategy()` returns a Hypothesis strategy of case dicts; `n` examples in total.
+    kind='enum'   : `cases()` returns a sequence of case dicts (finite, enumerated completely).
+    kind='machine': `machine(report)` returns a hypothesis.stateful.RuleBasedStateMachine subclass that executes its
+                    rules against the code under test and calls report(case, outcome) from teardown(), where `case` is
+                    the JSON description of the history it ran (replayable through run_case); `n` machines in total,
+                    at most `steps` rule applications each.
     """
 
-    def __init__(self, name, kind, n=None, strategy=None, cases=None, exhaustive_note=None):
+    def __init__(self, name, kind, n=None, strategy=None, cases=None, exhaustive_note=None, machine=None, steps=20):
         self.name, self.kind, self.n = name, kind, n
         self.strategy, self.cases, self.exhaustive_note = strategy, cases, exhaustive_note
+        self.machine, self.steps = machine, steps
 
 
 # ------------------------------------------------------------------------------------------------
@@ -289,14 +294,16 @@ def run_shard(args) -> dict:
         t_end = time.time() + time_cap if time_cap else None
         shrunk: list = []
 
-        def process(case):
-            out = safe_run_case(mod, case)
+        def report(case, out):
             stats.record(case, out, part_name, shard)
             if target_label is not None:
                 labels = {lab for lab, _ in out.fail}
                 if target_label in labels and (t_end is None or time.time() < t_end):
                     shrunk.append(case)
                     raise AssertionError(target_label)
+
+        def process(case):
+            report(case, safe_run_case(mod, case))
 
         if part.kind == "enum":
             cases = part.cases()
@@ -322,11 +329,22 @@ def run_shard(args) -> dict:
                 verbosity=hypothesis.Verbosity.quiet,
             )
 
-            @hypothesis.seed(derive_seed(seed, prop_id, part_name, shard))
-            @st
-            @given(part.strategy())
-            def test(case):
-                process(case)
+            if part.kind == "machine":
+                from hypothesis.stateful import run_state_machine_as_test
+
+                st = settings(st, stateful_step_count=part.steps)
+                cls = hypothesis.seed(derive_seed(seed, prop_id, part_name, shard))(part.machine(report))
+
+                def test():
+                    run_state_machine_as_test(cls, settings=st)
+
+            else:
+
+                @hypothesis.seed(derive_seed(seed, prop_id, part_name, shard))
+                @st
+                @given(part.strategy())
+                def test(case):
+                    process(case)
 
             try:
                 test()
@@ -416,7 +434,7 @@ def run_check(prop_id: str, tier: str, seed: int, only_part: str | None = None, 
         parts = [p for p in parts if p.name == only_part]
     if n_override:
         for p in parts:
-            if p.kind == "given":
+            if p.kind in ("given", "machine"):
                 p.n = n_override
 
     # 1. regression replays (seconds): committed witnesses of repaired defects / caught mutants
@@ -513,7 +531,7 @@ def run_check(prop_id: str, tier: str, seed: int, only_part: str | None = None, 
         for label, lst in sorted(buckets.items())[:6]:
             best = lst[0]
             part = next(p for p in parts if p.name == best["part"])
-            if part.kind == "given" and os.environ.get("VERIF_NO_SHRINK") != "1":
+            if part.kind in ("given", "machine") and os.environ.get("VERIF_NO_SHRINK") != "1":
                 n_sh = N_WORKERS if (part.n or 0) >= 4 * N_WORKERS else 1
                 job = (prop_id, part.name, best["shard"], n_sh, seed, tier, label, shrink_cap)
                 res = pool.apply(run_shard, (job,))
